@@ -99,7 +99,7 @@ func genScript(seed int64, k int, mode string) *script {
 		return sc
 	}
 	for i := 0; i < r.Intn(5); i++ {
-		sc.Steps = append(sc.Steps, step{Kind: []string{"badack", "badack", "badack", "dupsyn", "wait", "data", "rst-out", "othersyn", "rst-in", "crossack-port", "crossack-addr", "rst-ack-exact", "flag-syn"}[r.Intn(13)]})
+		sc.Steps = append(sc.Steps, step{Kind: []string{"badack", "badack", "badack", "dupsyn", "wait", "data", "rst-out", "othersyn", "rst-in", "crossack-port", "crossack-addr", "rst-ack-exact", "flag-syn", "noack"}[r.Intn(14)]})
 	}
 	if r.Chance(4, 5) {
 		sc.Steps = append(sc.Steps, step{Kind: "goodack"})
@@ -422,6 +422,22 @@ func runPassive(e *env, sc *script) {
 			if len(segs) > 0 {
 				viol("reset-answered", fmt.Sprintf("a reset was answered with %v", segs), sc, trace)
 			}
+		case "noack":
+			// a segment without the ACK bit (FIN only, no flags at all, PSH|URG - what scanners
+			// send) with whatever in its acknowledgement field: it acknowledges nothing, so it
+			// cannot complete a handshake (the Accept poll below judges that)
+			if !haveY {
+				continue
+			}
+			t := base
+			t.Seq, t.Ack = x+1, []uint32{0, y + 1, r.U32()}[r.Intn(3)]
+			t.Flags = []uint8{rfc.FIN, 0, rfc.PSH | rfc.URG, rfc.FIN | rfc.PSH}[r.Intn(4)]
+			if tsOK {
+				t.RawOpts = append([]byte{1, 1}, rfc.OptTS(tsval+1, tsecr)...)
+			}
+			e.p.Send(t)
+			tr("segment without ACK bit, flags %#02x, ack field %d -> %v", t.Flags, t.Ack, take())
+			run.Count("handshake_segments_without_ack_bit", 1)
 		case "wait":
 			time.Sleep(1500 * time.Millisecond)
 			rawpeer.Settle()
